@@ -3,11 +3,14 @@ package main
 import (
 	"bufio"
 	"fmt"
+	"golang.org/x/net/html"
 	"golang.org/x/text/encoding/charmap"
+	"golang.org/x/text/unicode/norm"
 	"os"
 	"path/filepath"
 	"strconv"
 	"strings"
+	"unicode/utf8"
 
 	"github.com/go-shiori/dom"
 	distiller "github.com/markusmobius/go-domdistiller"
@@ -99,9 +102,30 @@ var legacySamples = []struct {
 	{charmap.ISO8859_9, "ISO-8859-9", []string{"Pijamalı hasta yağız şoföre çabucak güvendi ve gülümsedi."}},
 }
 
+var englishWords = strings.Fields("the of and a to in is you that it he was for on are as with his they at be this have from or one had by word but not what all were we when your can said there use an each which she do how their if will up other about out many then them these so some her would make like him into time has look two more write go see number no way could people my than first water been call who oil its now find long down day did get come made may part")
+
+func fillerEnglish(r *RNG, n int) string {
+	var w []string
+	for i := 0; i < n; i++ {
+		w = append(w, englishWords[r.Intn(len(englishWords))])
+	}
+	return strings.Join(w, " ")
+}
+
 // legacyCharsetDoc returns the bytes of a small article in a legacy encoding
 // (or in UTF-8 with few non-ASCII characters).
 func legacyCharsetDoc(r *RNG) string {
+	if r.Intn(12) == 0 {
+		// very short pages on which a statistical detector has nothing to go by
+		return []string{"<html><head><title>Caf\xe9</title></head><body><p>Caf\xe9</p></body></html>", "<p>\x80</p>", "<p>\xe9t\xe9</p>", "<html><body><p>na\u00efve caf\u00e9</p></body></html>"}[r.Intn(4)]
+	}
+	if r.Intn(5) == 0 {
+		// UTF-8 with one to three non-ASCII characters in otherwise English text (declared or not)
+		meta := []string{"", `<meta charset="utf-8">`}[r.Intn(2)]
+		accents := []string{"caf\u00e9", "na\u00efve", "\u2014", "Se\u00f1or", "\u00fcber"}
+		body := "<p>The " + accents[r.Intn(5)] + " on the corner is open all day and serves breakfast until noon. " + fillerEnglish(r, 30+r.Intn(60)) + "</p><p>" + fillerEnglish(r, 40) + " " + accents[r.Intn(5)] + ".</p>"
+		return "<html><head>" + meta + "<title>The " + accents[r.Intn(5)] + " review of the week</title></head><body>" + body + "</body></html>"
+	}
 	smp := legacySamples[r.Intn(len(legacySamples))]
 	var body strings.Builder
 	n := 2 + r.Intn(5)
@@ -178,8 +202,13 @@ func runC11(c *Ctx, idx int) {
 			break
 		}
 	}
+	// valid UTF-8 whose text no normaliser would touch: "the tree parsed from the same bytes" is html.Parse of them
+	plainUTF8 := !asciiOnly && utf8.ValidString(src) && norm.NFC.IsNormalString(src) && !strings.ContainsRune(src, '\u00ad')
 	if !asciiOnly {
 		c.Inc("inputs_non_ascii")
+	}
+	if plainUTF8 {
+		c.Inc("inputs_plain_utf8")
 	}
 	var first resultView
 	var firstHow string
@@ -188,16 +217,23 @@ func runC11(c *Ctx, idx int) {
 		var cr callResult
 		how := []string{"ApplyForReader", "Apply(dom.Parse)", "ApplyForFile"}[rep%3]
 		route := rep % 3
-		if route == 1 && !asciiOnly {
-			// which encoding the harness-side parser guesses for non-ASCII bytes is not the
-			// library's business; such inputs go through the library's own entry points only
+		if route == 1 && !asciiOnly && !plainUTF8 {
+			// which encoding a parser should guess for bytes that are not UTF-8 is not decided by the
+			// property; such inputs go through the library's own entry points only
 			how, route = "ApplyForReader", 0
 		}
 		switch route {
 		case 0:
 			cr = c.applyReader(src, opts)
 		case 1:
-			doc, perr := dom.Parse(strings.NewReader(src))
+			var doc *html.Node
+			var perr error
+			if plainUTF8 {
+				how = "Apply(html.Parse)"
+				doc, perr = html.Parse(strings.NewReader(src))
+			} else {
+				doc, perr = dom.Parse(strings.NewReader(src))
+			}
 			if perr != nil {
 				c.Inc("unobservable_parse_error")
 				return
@@ -207,6 +243,15 @@ func runC11(c *Ctx, idx int) {
 			os.WriteFile(path, []byte(src), 0o644)
 			c.Calls(1)
 			cr.Panic, cr.Stack = c.Guard(func() { cr.Res, cr.Err = distiller.ApplyForFile(path, opts) })
+		}
+		if cr.Panic == "" && cr.Err != nil && route != 1 && strings.Contains(cr.Err.Error(), "not detected") {
+			// the byte entry point gives up on bytes that parse fine as a tree
+			if doc, perr := html.Parse(strings.NewReader(src)); perr == nil {
+				if ref := c.apply(doc, opts); ref.Panic == "" && ref.Err == nil {
+					c.Violation("entry-points-differ:error", fmt.Sprintf("%s returns the error %q for bytes on which Apply(html.Parse(bytes)) returns a result", how, cr.Err), map[string]any{"bytes_quoted": fmt.Sprintf("%q", trunc(src, 2000))})
+					return
+				}
+			}
 		}
 		if !c.usable(cr) {
 			return
